@@ -1629,7 +1629,7 @@ fn unpack(s: &str) -> (String, String, Option<CellId>) {
 }
 
 pub fn run(ctx: &Ctx) -> Report {
-    let cases: u32 = ctx.tier.pick(16, 320);
+    let cases: u32 = ctx.tier.pick(32, 320);
     let mut rep = par_workers(ctx.threads, |wi| {
         let mut rep = Report::new(RULE);
         let strat = case_strategy();
